@@ -7,10 +7,11 @@ import (
 
 // Mut is one mutation of a valid encoding (Corr/RunC10.mut).
 type Mut struct {
-	Kind string `json:"kind"` // id | trunc | word | raw
+	Kind string `json:"kind"` // id | trunc | word | wordv | raw
 	N    int    `json:"n,omitempty"`
 	I    int    `json:"i,omitempty"`
 	K    int    `json:"k,omitempty"`
+	V    uint64 `json:"v,omitempty"`
 	Raw  []byte `json:"raw,omitempty"`
 }
 
@@ -71,6 +72,10 @@ func (m Mut) Apply(base []byte) []byte {
 		out := append([]byte(nil), base...)
 		copy(out[32*m.I:32*m.I+32], WordBig(Boundary(m.K, len(base))))
 		return out
+	case "wordv":
+		out := append([]byte(nil), base...)
+		copy(out[32*m.I:32*m.I+32], Word(m.V))
+		return out
 	case "raw":
 		return append([]byte(nil), m.Raw...)
 	}
@@ -85,6 +90,8 @@ func (m Mut) Coq() string {
 		return fmt.Sprintf("(MTrunc %d)", m.N)
 	case "word":
 		return fmt.Sprintf("(MWord %d %d)", m.I, m.K)
+	case "wordv":
+		return fmt.Sprintf("(MWordV %d %d)", m.I, m.V)
 	case "raw":
 		return "(MRaw " + CB(m.Raw) + ")"
 	}
@@ -97,6 +104,8 @@ func (m Mut) String() string {
 		return fmt.Sprintf("truncated to %d bytes", m.N)
 	case "word":
 		return fmt.Sprintf("word %d replaced by %s", m.I, BoundaryNames[m.K])
+	case "wordv":
+		return fmt.Sprintf("word %d replaced by %d", m.I, m.V)
 	case "raw":
 		return fmt.Sprintf("%d raw bytes", len(m.Raw))
 	}
